@@ -2410,7 +2410,10 @@ class IndicatorSumConstraint(Functional):
     def _call(self, x):
         """Return ``self(x)``."""
 
-        if abs(x.ufuncs.sum() / self.sum_value - 1) <= self.sum_rtol:
+        # Relative comparison, with an absolute floor so that also
+        # ``sum_value = 0`` can be attained
+        tol = self.sum_rtol * max(abs(self.sum_value), 1.0)
+        if abs(x.ufuncs.sum() - self.sum_value) <= tol:
             return 0
         else:
             return np.inf
